@@ -1,0 +1,12 @@
+//go:build verif
+
+// Contracts for the deductive checks under /verif (comment-only; compiled only with -tags verif).
+
+package crypto
+
+// Trusted library contract: public-key recovery (secp256k1, external library) reads its
+// inputs and writes nothing the caller can see.
+//@ func Ecrecover
+//@   trusted
+//@   ensures err == nil ==> fresh(result0)
+//@   assigns nothing
